@@ -900,12 +900,20 @@ def check_C06(run):
         scs.append(sc_)
     l2_stream(run, scs, [('same-filters', oracle_same_filters)], 'filters-shipped', nontrivial=lambda r: any(cmd_name(c) == 'GetEntries' for c in r['impl_r'].get('dest', [])))
 
+    ok_cli, _o = C.build_cli()
+    from .props2 import l4_filter_stream
+    l4_fails = l4_filter_stream(run, 40 if not thorough else 500)
+
     def on_broken(failed):
         if oracle_fail:
             o = min(oracle_fail, key=lambda o: (len(o['filters']), sum(len(x) for x in o['filters'])))
             return dict(layer='L1', found_by='differential stream with the whole-path oracle', **o)
+        if l4_fails:
+            return dict(found_by='L4 filter stream', **l4_fails[0])
         return None
     C.proofs_step(run, 'C06', on_broken)
+    if l4_fails and not any(not v[1] for v in run.violations):
+        run.violation(dict(kind='oracle-failed-on-implementation', oracle='included entries are mirrored; excluded entries are untouched on both sides', failing_cases=len(l4_fails), **l4_fails[0]))
     if oracle_fail and not run.violations:
         o = min(oracle_fail, key=lambda o: (len(o['filters']), sum(len(x) for x in o['filters'])))
         run.violation(dict(kind='oracle-failed-on-implementation', oracle='whole-path match + last match wins', layer='L1', failing_cases=len(oracle_fail), **o))
@@ -2065,6 +2073,7 @@ def check_C07(run):
     finally:
         import subprocess as _sp
         _sp.run(['chmod', '-R', 'u+rwx', sb.dir]); sb.close()
+    c11_concurrent_writer(run)
     run.cov['trusted_base'] = C.GLOBAL_TRUST + ['"every I/O error the OS can produce" is bounded by the error kinds provoked here; the doer turning each failure into an Error response is validated by L3/L4, not proved']
 
 
@@ -2319,6 +2328,7 @@ def check_C09(run):
             shutil.rmtree(base, ignore_errors=True)
     finally:
         subprocess.run(['chmod', '-R', 'u+rwx', sb.dir]); sb.close()
+    c14_small_capacity_syncs(run)
     # ---- spurious readiness of the real select
     ans = C.run_harness(['selstress %d' % (200000 if not thorough else 3000000)], timeout=600)[0][0]
     run.cov['select_ready_stress'] = ans
